@@ -126,180 +126,6 @@ Proof.
     + intros u. rewrite H6, tasks_l_app, !cnt_app. simpl. rewrite app_nil_r. lia.
 Qed.
 
-Definition sync_wf (r : sres * mstate) (st : mstate) : Prop :=
-  match fst r with
-  | SOk d => nf d /\ is_exn d = false /\ wf_out (tasks_of d) st (snd r) None
-  | SRaise x => wf_out [] st (snd r) (Some x)
-  end.
-Definition syncf_wf (r : fres * mstate) (st : mstate) : Prop :=
-  match fst r with
-  | FOk ds => Forall nf ds /\ first_exn ds = None /\ wf_out (tasks_l ds) st (snd r) None
-  | FRaise x => wf_out [] st (snd r) (Some x)
-  end.
-
-Lemma collect_sync_wf keys ds : Forall nf ds -> first_exn ds = None ->
-  nf (collect_sync keys ds) /\ is_exn (collect_sync keys ds) = false /\
-  tasks_of (collect_sync keys ds) = tasks_l ds.
-Proof.
-  intros Hn Hx. unfold collect_sync. destruct (all_vals ds) as [vs|] eqn:E.
-  - split; [constructor|]. split; [reflexivity|]. symmetry. apply (all_vals_tasks ds vs E).
-  - split; [|split; [reflexivity|]].
-    + constructor; [constructor; assumption|reflexivity].
-    + cbn [tasks_of]. apply tasks_of_gather.
-Qed.
-
-Lemma gather_sync_wf ds : Forall nf ds -> first_exn ds = None ->
-  nf (gather_sync ds) /\ is_exn (gather_sync ds) = false /\ tasks_of (gather_sync ds) = tasks_l ds.
-Proof.
-  intros Hn Hx. unfold gather_sync. destruct (all_vals ds) as [vs|] eqn:E.
-  - split; [constructor|]. split; [reflexivity|]. symmetry. apply (all_vals_tasks ds vs E).
-  - split; [constructor; assumption|]. split; [reflexivity|]. apply tasks_of_gather.
-Qed.
-
-Lemma fields_to_sync_wf keys r st :
-  syncf_wf r st ->
-  sync_wf (match r with
-           | (FOk ds, st1) => (SOk (collect_sync keys ds), st1)
-           | (FRaise x, st1) => (SRaise x, st1)
-           end) st.
-Proof.
-  destruct r as [[ds|x] st1]; unfold syncf_wf, sync_wf; cbn [fst snd]; [|auto].
-  intros (Hn & Hx & Hw). destruct (collect_sync_wf keys ds Hn Hx) as (A & B & C).
-  split; [exact A|]. split; [exact B|]. rewrite C. exact Hw.
-Qed.
-
-Lemma items_to_sync_wf r st :
-  syncf_wf r st ->
-  sync_wf (match r with
-           | (FOk ds, st1) => (SOk (gather_sync ds), st1)
-           | (FRaise x, st1) => (SRaise x, st1)
-           end) st.
-Proof.
-  destruct r as [[ds|x] st1]; unfold syncf_wf, sync_wf; cbn [fst snd]; [|auto].
-  intros (Hn & Hx & Hw). destruct (gather_sync_wf ds Hn Hx) as (A & B & C).
-  split; [exact A|]. split; [exact B|]. rewrite C. exact Hw.
-Qed.
-
-Lemma nonnull_wrap_wf nn p r st : sync_wf r st -> sync_wf (nonnull_wrap nn p r) st.
-Proof.
-  unfold nonnull_wrap. destruct nn; [|auto]. destruct r as [[d|x] st']; [|auto].
-  unfold sync_wf. cbn [fst snd]. intros (Hn & Hx & Hw).
-  destruct d as [v| | | |]; cbn [fst snd].
-  - destruct (is_null v); (split; [constructor|]; split; [reflexivity|exact Hw]).
-  - discriminate.
-  - split; [constructor; [assumption|reflexivity]|]. split; [reflexivity|exact Hw].
-  - split; [constructor; [assumption|reflexivity]|]. split; [reflexivity|exact Hw].
-  - split; [constructor; [assumption|reflexivity]|]. split; [reflexivity|exact Hw].
-Qed.
-
-Lemma syncf_cons r1 st1 st (rest : mstate -> fres * mstate) :
-  sync_wf (r1, st1) st -> (forall s, syncf_wf (rest s) s) ->
-  syncf_wf (match r1 with
-            | SRaise x => (FRaise x, st1)
-            | SOk d => match rest st1 with
-                       | (FOk ds, st2) => (FOk (d :: ds), st2)
-                       | (FRaise x, st2) => (FRaise x, add_orphan d st2)
-                       end
-            end) st.
-Proof.
-  unfold sync_wf. cbn [fst snd]. intros H1 Hrest. destruct r1 as [d|x]; [|exact H1].
-  destruct H1 as (Hn & Hx & Hw1). specialize (Hrest st1).
-  destruct (rest st1) as [[ds|x] st2]; unfold syncf_wf in *; cbn [fst snd] in *.
-  - destruct Hrest as (Hns & Hxs & Hw2). split; [constructor; assumption|]. split.
-    + destruct d; try exact Hxs. discriminate.
-    + apply (wf_out_trans _ _ _ _ _ _ _ Hw1 Hw2).
-  - pose proof (wf_out_trans _ _ _ _ _ _ _ Hw1 Hrest) as Hw. cbn in Hw.
-    apply wf_out_orphan; [exact Hn|]. rewrite app_nil_r in Hw. rewrite app_nil_r. exact Hw.
-Qed.
-
-Lemma sync_wf_all :
-  (forall f p st, sync_wf (resolve_field p f st) st) /\
-  (forall b nn p st, sync_wf (complete_field nn b p st) st) /\
-  (forall fs p st, syncf_wf (start_fields p fs st) st) /\
-  (forall its inn p i st, syncf_wf (start_items inn p i its st) st) /\
-  (forall it inn p st, sync_wf (complete_item inn it p st) st).
-Proof.
-  apply prog_mutind.
-  - intros k dfr nn b IH p st. cbn [resolve_field]. destruct dfr as [n|].
-    + unfold sync_wf. cbn [fst snd]. split; [constructor; [constructor|reflexivity]|].
-      split; [reflexivity|].
-      exists [(p ++ [k], O)], [], []. cbn. rewrite !app_nil_r. repeat split; try constructor.
-      intros u. lia.
-    + exact (IH nn (p ++ [k]) (emit (LFinish (p ++ [k], O)) (emit (LInvoke (p ++ [k], O)) st))).
-  - intros z nn p st. unfold sync_wf. cbn. split; [constructor|]. split; [reflexivity|exact (wf_out_refl st)].
-  - intros nn p st. unfold sync_wf. cbn [complete_field fst snd]. split; [constructor|]. split; [reflexivity|].
-    destruct nn; exact (wf_out_refl st).
-  - intros nn p st. unfold sync_wf. cbn. split; [constructor|]. split; [reflexivity|exact (wf_out_refl st)].
-  - intros x nn p st. unfold sync_wf. cbn [complete_field fst snd].
-    exists [], [], [x]. cbn. rewrite !app_nil_r. repeat split; try constructor; reflexivity.
-  - intros fs IH nn p st. cbn [complete_field]. apply nonnull_wrap_wf. apply fields_to_sync_wf. apply IH.
-  - intros inn its IH nn p st. cbn [complete_field]. apply nonnull_wrap_wf. apply items_to_sync_wf. apply IH.
-  - intros p st. unfold syncf_wf. cbn. split; [constructor|]. split; [reflexivity|exact (wf_out_refl st)].
-  - intros f IHf fs IHfs p st. cbn [start_fields].
-    pose proof (IHf p st) as H1. destruct (resolve_field p f st) as [r1 st1].
-    apply (syncf_cons r1 st1 st (start_fields p fs) H1 (IHfs p)).
-  - intros inn p i st. unfold syncf_wf. cbn. split; [constructor|]. split; [reflexivity|exact (wf_out_refl st)].
-  - intros it IHit its IHits inn p i st. cbn [start_items].
-    pose proof (IHit inn (p ++ [i]) st) as H1. destruct (complete_item inn it (p ++ [i]) st) as [r1 st1].
-    apply (syncf_cons r1 st1 st (start_items inn p (N.succ i) its) H1 (IHits inn p (N.succ i))).
-  - intros inn p st. unfold sync_wf. cbn [complete_item fst snd]. split; [constructor|]. split; [reflexivity|].
-    destruct inn; exact (wf_out_refl st).
-  - intros z inn p st. unfold sync_wf. cbn. split; [constructor|]. split; [reflexivity|exact (wf_out_refl st)].
-  - intros fs IH inn p st. cbn [complete_item]. apply nonnull_wrap_wf. apply fields_to_sync_wf. apply IH.
-Qed.
-
-Definition sync_wf_field := proj1 sync_wf_all.
-Definition sync_wf_complete := proj1 (proj2 sync_wf_all).
-Definition sync_wf_fields := proj1 (proj2 (proj2 sync_wf_all)).
-
-Lemma sync_wf_after r st st1 : wf_out [] st st1 None -> sync_wf r st1 -> sync_wf r st.
-Proof.
-  intros H0. unfold sync_wf. destruct (fst r) as [d|x].
-  - intros (A & B & C). split; [exact A|]. split; [exact B|].
-    exact (wf_out_trans _ _ _ _ _ _ _ H0 C).
-  - intros C. exact (wf_out_trans _ _ _ _ _ _ _ H0 C).
-Qed.
-
-Lemma serial_next_wf : forall rest acc st, sync_wf (serial_next acc rest st) st.
-Proof.
-  induction rest as [|f rest IH]; intros acc st; cbn [serial_next].
-  - unfold sync_wf. cbn. split; [constructor|]. split; [reflexivity|exact (wf_out_refl st)].
-  - pose proof (sync_wf_field f [] st) as H1. destruct (resolve_field [] f st) as [r1 st1].
-    unfold sync_wf in H1. cbn [fst snd] in H1. destruct r1 as [d|x].
-    + destruct H1 as (Hn & Hx & Hw).
-      assert (Hdef : is_done d = false ->
-                sync_wf (SOk (Bind d (KSerial (key_of f) acc rest)), st1) st).
-      { intros Hd. unfold sync_wf. cbn [fst snd]. split; [constructor; assumption|].
-        split; [reflexivity|exact Hw]. }
-      destruct d as [v| | | |]; try (apply Hdef; reflexivity); [|discriminate].
-      apply (sync_wf_after _ st st1 Hw). apply IH.
-    + exact H1.
-Qed.
-
-(* results of continuations / completion steps on terms *)
-Definition dres_wf (r : D * mstate) (st : mstate) : Prop :=
-  nf (fst r) /\ wf_out (tasks_of (fst r)) st (snd r) None /\
-  (forall x, fst r = Exn x -> In x (raised (snd r))).
-
-Lemma lift_wf r st : sync_wf r st -> dres_wf (lift r) st.
-Proof.
-  destruct r as [[d|x] st']; unfold sync_wf, dres_wf; cbn [fst snd lift].
-  - intros (A & B & C). split; [exact A|]. split; [exact C|]. intros x Hx. subst d. discriminate.
-  - intros H. split; [constructor|]. split; [apply (wf_out_weaken _ _ _ _ H)|].
-    intros y Hy. inversion Hy; subst y.
-    destruct H as (p & q & r & _ & _ & Hr & _ & _ & _ & Hin). rewrite Hr. apply in_or_app. right. exact Hin.
-Qed.
-
-Lemma apply_k_wf k v st : dres_wf (apply_k k v st) st.
-Proof.
-  destruct k as [f p|keys|p|k acc rest|]; cbn [apply_k].
-  - destruct f as [kk dfr nn b]. apply lift_wf. apply sync_wf_complete.
-  - split; [constructor|]. split; [exact (wf_out_refl st)|]. intros x Hx. discriminate.
-  - split; [constructor|]. split; [destruct (is_null v); exact (wf_out_refl st)|]. intros x Hx. discriminate.
-  - apply lift_wf. apply serial_next_wf.
-  - split; [constructor|]. split; [exact (wf_out_refl st)|]. intros x Hx. discriminate.
-Qed.
-
 Lemma add_orphans_spec ds : forall st,
   pending (add_orphans ds st) = pending st /\ raised (add_orphans ds st) = raised st /\
   orphans (add_orphans ds st) = orphans st ++ filter (fun d => negb (is_done d)) ds.
@@ -351,6 +177,219 @@ Proof.
       exists []. rewrite app_nil_r. repeat split; try constructor.
       * intros u. rewrite tasks_of_gather. simpl. lia.
       * intros x Hx. discriminate.
+Qed.
+
+
+Definition sync_wf (r : sres * mstate) (st : mstate) : Prop :=
+  match fst r with
+  | SOk d => nf d /\ wf_out (tasks_of d) st (snd r) None /\
+             (forall x, d = Exn x -> In x (raised (snd r)))
+  | SRaise x => wf_out [] st (snd r) (Some x)
+  end.
+Definition syncf_wf (r : fres * mstate) (st : mstate) : Prop :=
+  match fst r with
+  | FOk ds => Forall nf ds /\ wf_out (tasks_l ds) st (snd r) None /\
+              (forall x, In (Exn x) ds -> In x (raised (snd r)))
+  | FRaise x => wf_out [] st (snd r) (Some x)
+  end.
+
+(* a gather in the synchronous phase: some waited-for terms become orphans *)
+Lemma wf_out_regroup ts ts' st st1 st2 o newo2 :
+  wf_out ts st st1 o ->
+  pending st2 = pending st1 -> raised st2 = raised st1 -> orphans st2 = orphans st1 ++ newo2 ->
+  Forall nf newo2 -> Forall (fun d => is_done d = false) newo2 ->
+  (forall u, cnt u ts = cnt u ts' + cnt u (tasks_l newo2)) ->
+  wf_out ts' st st2 o.
+Proof.
+  intros (p & q & r & H1 & H2 & H3 & H4 & H5 & H6 & H7) Hp Hr Ho Hn Hd Hc.
+  exists p, (q ++ newo2), r. rewrite Hp, Hr, Ho, H1, H2, H3, app_assoc. repeat split; try assumption.
+  - apply Forall_app. split; assumption.
+  - apply Forall_app. split; assumption.
+  - intros u. rewrite H6, Hc, tasks_l_app, cnt_app. lia.
+Qed.
+
+Lemma gather_to_sync_wf r st :
+  syncf_wf r st ->
+  sync_wf (match r with
+           | (FOk ds, st1) => let '(d, st2) := gather_sync ds st1 in (SOk d, st2)
+           | (FRaise x, st1) => (SRaise x, st1)
+           end) st.
+Proof.
+  destruct r as [[ds|x] st1]; unfold syncf_wf, sync_wf; cbn [fst snd]; [|auto].
+  intros (Hn & Hw & Hx). unfold gather_sync.
+  pose proof (gather_norm_wf ds st1 Hn) as Hg. cbv zeta in Hg.
+  destruct (gather_norm ds st1) as [d st2]. cbn [fst snd] in *.
+  destruct Hg as (Hnd & Hp & Hr & newo & Ho & Hno & Hdo & Hc & Hex).
+  split; [exact Hnd|]. split.
+  - apply (wf_out_regroup _ _ _ _ _ _ newo Hw Hp Hr Ho Hno Hdo Hc).
+  - intros x Hd. rewrite Hr. apply Hx. apply Hex. exact Hd.
+Qed.
+
+Lemma fields_to_sync_wf keys r st :
+  syncf_wf r st ->
+  sync_wf (match r with
+           | (FOk ds, st1) => let '(d, st2) := collect_sync keys ds st1 in (SOk d, st2)
+           | (FRaise x, st1) => (SRaise x, st1)
+           end) st.
+Proof.
+  intros H. pose proof (gather_to_sync_wf r st H) as G.
+  destruct r as [[ds|x] st1]; [|exact G]. unfold collect_sync. unfold gather_sync in G.
+  destruct (gather_norm ds st1) as [g st2]. unfold sync_wf in *. cbn [fst snd] in *.
+  destruct G as (Hn & Hw & Hx).
+  assert (Hdef : is_done g = false ->
+            nf (Bind g (KCollect keys)) /\ wf_out (tasks_of (Bind g (KCollect keys))) st st2 None /\
+            (forall x, Bind g (KCollect keys) = Exn x -> In x (raised st2))).
+  { intros Hd. split; [constructor; assumption|]. split; [exact Hw|]. intros x Hc. discriminate. }
+  destruct g as [v|x| | |]; try (apply Hdef; reflexivity).
+  - split; [constructor|]. split; [exact Hw|]. intros x Hc. discriminate.
+  - split; [constructor|]. split; [exact Hw|]. exact Hx.
+Qed.
+
+Definition items_to_sync_wf := gather_to_sync_wf.
+
+Lemma nonnull_wrap_wf nn p r st : sync_wf r st -> sync_wf (nonnull_wrap nn p r) st.
+Proof.
+  unfold nonnull_wrap. destruct nn; [|auto]. destruct r as [[d|x] st']; [|auto].
+  unfold sync_wf. cbn [fst snd]. intros (Hn & Hw & Hx).
+  destruct d as [v| | | |]; cbn [fst snd].
+  - destruct (is_null v); (split; [constructor|]; split; [exact Hw|]; intros y Hy; discriminate).
+  - split; [constructor|]. split; [exact Hw|exact Hx].
+  - split; [constructor; [assumption|reflexivity]|]. split; [exact Hw|]. intros y Hy. discriminate.
+  - split; [constructor; [assumption|reflexivity]|]. split; [exact Hw|]. intros y Hy. discriminate.
+  - split; [constructor; [assumption|reflexivity]|]. split; [exact Hw|]. intros y Hy. discriminate.
+Qed.
+
+Lemma wf_out_raised ts st st' o x : wf_out ts st st' o -> In x (raised st) -> In x (raised st').
+Proof.
+  intros (p & q & r & _ & _ & Hr & _) H. rewrite Hr. apply in_or_app. left. exact H.
+Qed.
+
+Lemma syncf_cons r1 st1 st (rest : mstate -> fres * mstate) :
+  sync_wf (r1, st1) st -> (forall s, syncf_wf (rest s) s) ->
+  syncf_wf (match r1 with
+            | SRaise x => (FRaise x, st1)
+            | SOk d => match rest st1 with
+                       | (FOk ds, st2) => (FOk (d :: ds), st2)
+                       | (FRaise x, st2) => (FRaise x, add_orphan d st2)
+                       end
+            end) st.
+Proof.
+  unfold sync_wf. cbn [fst snd]. intros H1 Hrest. destruct r1 as [d|x]; [|exact H1].
+  destruct H1 as (Hn & Hw1 & Hx1). specialize (Hrest st1).
+  destruct (rest st1) as [[ds|x] st2]; unfold syncf_wf in *; cbn [fst snd] in *.
+  - destruct Hrest as (Hns & Hw2 & Hx2). split; [constructor; assumption|]. split.
+    + apply (wf_out_trans _ _ _ _ _ _ _ Hw1 Hw2).
+    + intros x [Hd|Hd]; [|apply Hx2; exact Hd].
+      apply (wf_out_raised _ _ _ _ _ Hw2). apply Hx1. exact Hd.
+  - pose proof (wf_out_trans _ _ _ _ _ _ _ Hw1 Hrest) as Hw. cbn in Hw.
+    apply wf_out_orphan; [exact Hn|]. rewrite app_nil_r in Hw. rewrite app_nil_r. exact Hw.
+Qed.
+
+Lemma run_eager_wf : forall e t more st,
+  wf_out (match fst (run_eager t more e st) with Some (t', _) => [t'] | None => [] end)
+         st (snd (run_eager t more e st)) None.
+Proof.
+  induction e as [|e IH]; intros t more st; cbn [run_eager].
+  - cbn [fst snd]. exists [t], [], []. cbn. rewrite !app_nil_r. repeat split; try constructor.
+    intros u. lia.
+  - destruct more as [|m]; [exact (wf_out_refl st)|].
+    exact (IH (next_tid t) m (emit (LFinish t) (emit (LInvoke t) st))).
+Qed.
+
+Lemma capture_wf r st : sync_wf r st -> sync_wf (capture r) st.
+Proof.
+  destruct r as [[d|x] st']; [auto|]. unfold sync_wf. cbn [fst snd capture]. intros H.
+  split; [constructor|]. split; [apply (wf_out_weaken _ _ _ _ H)|].
+  intros y Hy. injection Hy as <-.
+  destruct H as (p & q & r & _ & _ & Hr & _ & _ & _ & Hin). rewrite Hr. apply in_or_app. right. exact Hin.
+Qed.
+
+Lemma sync_wf_after r st st1 : wf_out [] st st1 None -> sync_wf r st1 -> sync_wf r st.
+Proof.
+  intros H0. unfold sync_wf. destruct (fst r) as [d|x].
+  - intros (A & C & E). split; [exact A|]. split; [|exact E].
+    exact (wf_out_trans _ _ _ _ _ _ _ H0 C).
+  - intros C. exact (wf_out_trans _ _ _ _ _ _ _ H0 C).
+Qed.
+
+Lemma sync_wf_all :
+  (forall f p st, sync_wf (resolve_field p f st) st) /\
+  (forall b nn p st, sync_wf (complete_field nn b p st) st) /\
+  (forall fs p st, syncf_wf (start_fields p fs st) st) /\
+  (forall its inn p i st, syncf_wf (start_items inn p i its st) st) /\
+  (forall it inn p st, sync_wf (complete_item inn it p st) st).
+Proof.
+  assert (Hval : forall v st st', wf_out [] st st' None -> sync_wf (SOk (Val v), st') st).
+  { intros v st st' H. unfold sync_wf. cbn. split; [constructor|]. split; [exact H|]. intros x Hx. discriminate. }
+  apply prog_mutind.
+  - intros k dfr nn b IH p st. cbn [resolve_field]. destruct dfr as [[n e]|].
+    + pose proof (run_eager_wf e (p ++ [k], O) n st) as Hr.
+      destruct (run_eager (p ++ [k], O) n e st) as [[[t m]|] st1]; cbn [fst snd] in Hr.
+      * unfold sync_wf. cbn [fst snd]. split; [constructor; [constructor|reflexivity]|].
+        split; [exact Hr|]. intros x Hx. discriminate.
+      * apply capture_wf. apply (sync_wf_after _ st st1 Hr). apply IH.
+    + exact (IH nn (p ++ [k]) (emit (LFinish (p ++ [k], O)) (emit (LInvoke (p ++ [k], O)) st))).
+  - intros z nn p st. apply Hval. exact (wf_out_refl st).
+  - intros nn p st. cbn [complete_field]. apply Hval. destruct nn; exact (wf_out_refl st).
+  - intros nn p st. apply Hval. exact (wf_out_refl st).
+  - intros x nn p st. unfold sync_wf. cbn [complete_field fst snd].
+    exists [], [], [x]. cbn. rewrite !app_nil_r. repeat split; try constructor; reflexivity.
+  - intros fs IH nn p st. cbn [complete_field]. apply nonnull_wrap_wf. apply fields_to_sync_wf. apply IH.
+  - intros inn its IH nn p st. cbn [complete_field]. apply nonnull_wrap_wf. apply items_to_sync_wf. apply IH.
+  - intros p st. unfold syncf_wf. cbn. split; [constructor|]. split; [exact (wf_out_refl st)|]. intros x [].
+  - intros f IHf fs IHfs p st. cbn [start_fields].
+    pose proof (IHf p st) as H1. destruct (resolve_field p f st) as [r1 st1].
+    apply (syncf_cons r1 st1 st (start_fields p fs) H1 (IHfs p)).
+  - intros inn p i st. unfold syncf_wf. cbn. split; [constructor|]. split; [exact (wf_out_refl st)|]. intros x [].
+  - intros it IHit its IHits inn p i st. cbn [start_items].
+    pose proof (IHit inn (p ++ [i]) st) as H1. destruct (complete_item inn it (p ++ [i]) st) as [r1 st1].
+    apply (syncf_cons r1 st1 st (start_items inn p (N.succ i) its) H1 (IHits inn p (N.succ i))).
+  - intros inn p st. cbn [complete_item]. apply Hval. destruct inn; exact (wf_out_refl st).
+  - intros z inn p st. apply Hval. exact (wf_out_refl st).
+  - intros fs IH inn p st. cbn [complete_item]. apply nonnull_wrap_wf. apply fields_to_sync_wf. apply IH.
+Qed.
+
+Definition sync_wf_field := proj1 sync_wf_all.
+Definition sync_wf_complete := proj1 (proj2 sync_wf_all).
+Definition sync_wf_fields := proj1 (proj2 (proj2 sync_wf_all)).
+
+Lemma serial_next_wf : forall rest acc st, sync_wf (serial_next acc rest st) st.
+Proof.
+  induction rest as [|f rest IH]; intros acc st; cbn [serial_next].
+  - unfold sync_wf. cbn. split; [constructor|]. split; [exact (wf_out_refl st)|]. intros x Hx. discriminate.
+  - pose proof (sync_wf_field f [] st) as H1. destruct (resolve_field [] f st) as [r1 st1].
+    destruct r1 as [d|x]; [|exact H1].
+    assert (Hdef : is_done d = false ->
+              sync_wf (SOk (Bind d (KSerial (key_of f) acc rest)), st1) st).
+    { intros Hd. unfold sync_wf in *. cbn [fst snd] in *. destruct H1 as (Hn & Hw & Hx).
+      split; [constructor; assumption|]. split; [exact Hw|]. intros x Hc. discriminate. }
+    destruct d as [v| | | |]; try (apply Hdef; reflexivity); [|exact H1].
+    unfold sync_wf in H1. cbn [fst snd] in H1. destruct H1 as (_ & Hw & _).
+    apply (sync_wf_after _ st st1 Hw). apply IH.
+Qed.
+
+(* results of continuations / completion steps on terms *)
+Definition dres_wf (r : D * mstate) (st : mstate) : Prop :=
+  nf (fst r) /\ wf_out (tasks_of (fst r)) st (snd r) None /\
+  (forall x, fst r = Exn x -> In x (raised (snd r))).
+
+Lemma lift_wf r st : sync_wf r st -> dres_wf (lift r) st.
+Proof.
+  destruct r as [[d|x] st']; unfold sync_wf, dres_wf; cbn [fst snd lift].
+  - intros (A & C & E). split; [exact A|]. split; [exact C|exact E].
+  - intros H. split; [constructor|]. split; [apply (wf_out_weaken _ _ _ _ H)|].
+    intros y Hy. inversion Hy; subst y.
+    destruct H as (p & q & r & _ & _ & Hr & _ & _ & _ & Hin). rewrite Hr. apply in_or_app. right. exact Hin.
+Qed.
+
+Lemma apply_k_wf k v st : dres_wf (apply_k k v st) st.
+Proof.
+  destruct k as [f p|keys|p|k acc rest|]; cbn [apply_k].
+  - destruct f as [kk dfr nn b]. apply lift_wf. apply sync_wf_complete.
+  - split; [constructor|]. split; [exact (wf_out_refl st)|]. intros x Hx. discriminate.
+  - split; [constructor|]. split; [destruct (is_null v); exact (wf_out_refl st)|]. intros x Hx. discriminate.
+  - apply lift_wf. apply serial_next_wf.
+  - split; [constructor|]. split; [exact (wf_out_refl st)|]. intros x Hx. discriminate.
 Qed.
 
 Lemma cnt_single u t : cnt u [t] = if tid_eq_dec t u then 1 else 0.
@@ -524,26 +563,27 @@ Lemma wf_finish r :
   sync_wf r st0 ->
   wf_state (match r with
             | (SOk (Val v), st) => MkState (Val v) st
+            | (SOk (Exn x), st) => MkState (Exn x) st
             | (SOk d, st) => MkState (Bind d KFinish) st
             | (SRaise x, st) => MkState (Exn x) st
             end).
 Proof.
   destruct r as [[d|x] st]; unfold sync_wf; cbn [fst snd].
-  - intros (Hn & Hx & (p & q & r & Hp & Hq & Hr & Hnq & Hdq & Hc & _)). cbn in Hp, Hq, Hr.
-    assert (Hdef : is_done d = false -> wf_state (MkState (Bind d KFinish) st)).
-    { intros Hd. constructor; cbn [term ms].
-      - constructor; assumption.
+  - intros (Hn & (p & q & r & Hp & Hq & Hr & Hnq & Hdq & Hc & _) & Hx). cbn in Hp, Hq.
+    assert (Hsame : forall t, tasks_of t = tasks_of d -> nf t ->
+              (forall y, t = Exn y -> In y (raised st)) -> wf_state (MkState t st)).
+    { intros t Ht Hnt Hxt. constructor; cbn [term ms].
+      - exact Hnt.
       - rewrite Hq. exact Hnq.
       - rewrite Hq. exact Hdq.
-      - intros u. rewrite Hp, Hq. apply Hc.
-      - intros y Hy. discriminate. }
-    destruct d as [v| | | |]; try (apply Hdef; reflexivity); [|discriminate].
-    constructor; cbn [term ms].
-    + constructor.
-    + rewrite Hq. exact Hnq.
-    + rewrite Hq. exact Hdq.
-    + intros u. rewrite Hp, Hq. apply Hc.
-    + intros y Hy. discriminate.
+      - intros u. rewrite Hp, Hq, Ht. apply Hc.
+      - exact Hxt. }
+    destruct d as [v|y| | |].
+    + apply Hsame; [reflexivity|constructor|intros y Hy; discriminate].
+    + apply Hsame; [reflexivity|constructor|exact Hx].
+    + apply Hsame; [reflexivity|constructor; [assumption|reflexivity]|intros y Hy; discriminate].
+    + apply Hsame; [reflexivity|constructor; [assumption|reflexivity]|intros y Hy; discriminate].
+    + apply Hsame; [reflexivity|constructor; [assumption|reflexivity]|intros y Hy; discriminate].
   - intros (p & q & r & Hp & Hq & Hr & Hnq & Hdq & Hc & Hin). cbn in Hp, Hq, Hr.
     constructor; cbn [term ms].
     + constructor.
